@@ -59,6 +59,39 @@ class Limiter:
     def advance(self, d):
         self.loop.advance(d * TICK)
 
+    def advance_interleaved(self, d, inject):
+        """Advance by d ticks, but run the loop one iteration at a time once the target time is reached and call
+        inject() between iterations: requests that arrive *while* a clean-up wake-up is in progress."""
+        loop = self.loop
+        loop.run_idle()
+        loop._vt = loop._vt + d * TICK
+        for _ in range(10000):
+            if not (loop._ready or loop._due()):
+                break
+            loop.call_soon(loop.stop)
+            loop.run_forever()
+            inject()
+        loop.run_idle()
+
+    def request_now(self, ip):
+        """process_request driven to completion without running other loop callbacks (it never awaits)."""
+        coro = self.rl.process_request("gemini://h.ex/x", ADDR[ip], None)
+        try:
+            coro.send(None)
+        except StopIteration as si:
+            ok, resp = si.value
+            return bool(ok)
+        raise RuntimeError("process_request suspended")
+
+    def crowd(self, n):
+        """n other addresses make one request each (background traffic, not part of the logged history)."""
+        for k in range(n):
+            coro = self.rl.process_request("gemini://h.ex/x", "10.%d.%d.%d" % (k >> 16, (k >> 8) & 255, k & 255), None)
+            try:
+                coro.send(None)
+            except StopIteration:
+                pass
+
     def request(self, ip, concurrent=0):
         """One process_request (optionally gather()-ed with `concurrent` further ones from the same address:
         returns the list of decisions in call order)."""
@@ -162,17 +195,46 @@ def random_trace(rnd):
     out = []
     with virtual([mwmod]) as loop:
         lim = Limiter(loop, par, ips, retry_after=rnd.choice([1, 30, 99]))
+        crowd = rnd.choice([0, 0, 300, 700])
+        if crowd:
+            lim.crowd(crowd)
         now = 0
         next_clean = 75
+        during = []
         for _ in range(rnd.randint(20, 120)):
             if now == next_clean:
+                # a request handled after the timer fired but before the clean-up task resumed comes first;
+                # requests handled while a (non-atomic) clean-up was suspended are logged after it
+                for (ip, ok) in during[:1]:
+                    out.append({"a": "Request", "ip": ip, "ok": ok, "haslv": False, "lv": {"a": 0, "b": 0, "c": 0}})
                 out.append({"a": "Cleanup", "lv": lim.levels()})
+                for (ip, ok) in during[1:]:
+                    out.append({"a": "Request", "ip": ip, "ok": ok, "haslv": False, "lv": {"a": 0, "b": 0, "c": 0}})
+                during = []
                 next_clean += 75
                 continue
             if rnd.random() < 0.45:
                 dd = rnd.choice([1, 1, 2, 5, 25, 75, 75, 150, rnd.randint(1, 200)])
                 dd = min(dd, next_clean - now)
-                lim.advance(dd)
+                if now + dd == next_clean and rnd.random() < 0.6:
+                    ip_i = rnd.choice(ips)
+                    budget = [rnd.randint(0, 3)]
+
+                    calls = [0]
+
+                    def inject():
+                        calls[0] += 1
+                        if calls[0] == 1 and not during and lim.loop._ready and rnd.random() < 0.5:
+                            during.append((ip_i, lim.request_now(ip_i)))
+                        elif calls[0] > 1 and budget[0] > 0 and lim.loop._ready:
+                            if not during:
+                                during.append((ip_i, lim.request_now(ip_i)))   # keeps slot 0 = "before" only if first
+                                during.insert(0, during.pop())
+                            budget[0] -= 1
+                            during.append((ip_i, lim.request_now(ip_i)))
+                    lim.advance_interleaved(dd, inject)
+                else:
+                    lim.advance(dd)
                 now += dd
                 out.append({"a": "Advance", "d": dd})
             else:
